@@ -83,6 +83,7 @@ type Exec struct {
 	depth    int
 	noSafety bool
 	inQuant  int
+	inOld    int // inside old(...): identifiers denote entry values (parameters), not loop variables
 }
 
 func newExec(w *World, fn *ssa.Function, props []string) *Exec {
